@@ -1,0 +1,9 @@
+// Verification hooks are compiled out without -tags verif.
+
+//go:build !verif
+
+package webstack
+
+import "github.com/maruel/panicparse/v2/stack"
+
+func verifSnapshot([]byte, *stack.Snapshot, error) {}
